@@ -43,6 +43,8 @@ structure Env where
   selfCls : Nat
   /-- `re.compile(regex_k).match(s) is not None` (String trait; parameter). -/
   rx : Nat → String → Bool
+  /-- user predicate number `f` of a ValidatedTuple applied to the validated tuple (`fvalidate(values)`). -/
+  pred : Nat → Val → Except Exc Bool := fun _ _ => .ok true
   /-- `numpy.asarray(value[, dtype])` of a list / tuple: dtype code and shape, or an exception (Array trait; parameter). -/
   asarray : Val → Option Nat → Except Exc (Nat × List Nat) := fun _ _ => .error .valueError
   /-- `numpy.can_cast(from, to, casting)`: does `astype(to, casting=…)` succeed (Array trait; parameter). -/
